@@ -171,7 +171,7 @@ def gen_case(rng, tier, g):
                           rng.choice(FAULT_KINDS)])
     case = {'prop': PROP, 'stack': stack, 'tables': tables, 'steps': steps,
             'shape': shape,
-            'rows': rng.choice(['alias', 'alias', 'copy']),
+            'rows': rng.choice(['alias', 'alias', 'copy', 'plain']),
             'wrap': rng.random() < 0.15,
             'config': draw_config(rng, 0.12, exclude=('sort_buffersize',)),
             'knobs': {'sort_buffersize': rng.choice([None, None, 2, 3])}}
